@@ -715,6 +715,25 @@ pub fn record_main(args: &[String]) -> i32 {
             push(format!("fixture {id} mutation {k}"), &b, false);
         }
     }
+    // shuffled object lines, 6..12 objects, every mode (the final sorts - stable tandem sort, then the legacy sort for mania -
+    // see every permutation class): ids in x and in the hit sound
+    for k in 0..(if tier == "thorough" { 1500 } else { 240 }) {
+        let mode = k % 4;
+        let n = 6 + (k / 4) % 7;
+        let mut order: Vec<usize> = (0..n).collect();
+        for a in (1..n).rev() {
+            let b = rng.gen_range(0..=a);
+            order.swap(a, b);
+        }
+        let mut t = String::from("osu file format v14\n\n[General]\nMode: ");
+        t += &format!("{mode}\n\n[Difficulty]\nCircleSize:4\n\n[TimingPoints]\n0,500,4,2,0,100,1,0\n\n[HitObjects]\n");
+        for &o in &order {
+            // a few equal times among them
+            let time = 100 * (o as i64 - (o % 3 == 2) as i64);
+            t += &format!("{},192,{time},1,{}\n", o + 1, o + 1);
+        }
+        push(format!("shuffled object lines {k} mode {mode} n={n}"), t.as_bytes(), true);
+    }
     for k in 0..n_rand {
         let n = rng.gen_range(0..14);
         let ls = random_lines(&mut rng, n);
